@@ -98,3 +98,30 @@ func VerifC19_Isolation() {
 	}
 	vpReach("end")
 }
+
+// VerifC19_DestroyReuse: DMap handles are obtained once and reused, as embedded clients do. Rounds of "write some
+// keys through a handle, Destroy through a handle (either member), check" - Destroy must wipe the DMap every time, not
+// only the first time, for ReplicaCount 1 and 2, and the DMap stays usable afterwards.
+func VerifC19_DestroyReuse() {
+	rounds := vpBound("rounds")
+	replicas := 1 + vpChoose("replicas", 2)
+	cl := vpTwoMembers(replicas, 0)
+	ctx := context.Background()
+	h := [2]*DMap{vpDMap(cl.members[0], "a"), vpDMap(cl.members[1], "a")}
+	for r := 0; r < rounds; r++ {
+		w := vpChoose("writer", 2)
+		k := vpMapKeys[vpChoose("key", len(vpMapKeys))]
+		vpAssert(h[w].Put(ctx, k, []byte{byte('0' + r)}, nil) == nil, "put-through-reused-handle")
+		d := vpChoose("destroyer", 2)
+		vpAssert(h[d].Destroy(ctx) == nil, "destroy-succeeds")
+		for m := 0; m < 2; m++ {
+			for _, kk := range vpMapKeys {
+				_, gerr := h[m].Get(ctx, kk)
+				vpAssert(errors.Is(gerr, ErrKeyNotFound), "destroyed-dmap-key-not-found")
+			}
+			vpAssert(!vpHasFragment(cl.members[m], "a", partitions.PRIMARY, 1), "destroy-removes-primary-fragment")
+			vpAssert(!vpHasFragment(cl.members[m], "a", partitions.BACKUP, 1), "destroy-removes-backup-fragment")
+		}
+	}
+	vpReach("end")
+}
